@@ -7,12 +7,12 @@ VERIF = os.path.dirname(os.path.dirname(os.path.abspath(__file__)))
 
 COMMON_NOTE = ("Trusted: Coq 8.16.1 kernel; no axioms (Print Assumptions output is recorded per theorem in the "
                "evidence; the thorough tier re-checks the compiled theorems with coqchk -o and records its axiom summary); hand-written Gallina model tied to /repo by regenerated tables (harness/gen_tables.py), by "
-               "re-translation of yarl/_path.py, of unsplit_result / make_netloc (yarl/_parse.py) and of the constructors encode_url / pre_encoded_url / __str__ / __eq__ / ordering operators / accessors / modifiers / join (yarl/_url.py) from the source with proofs of equality to the model (harness/gen_model.py; C15_source_*, C07_source_*) "
+               "re-translation of yarl/_path.py, of yarl/_query.py, of unsplit_result / make_netloc / split_netloc (yarl/_parse.py) and of the constructors encode_url / pre_encoded_url / build_pre_encoded_url / from_parts_uncached, __str__ / __eq__ / ordering operators / accessors / modifiers / query operations / join (yarl/_url.py) from the source with proofs of equality to the model (harness/gen_model.py; C15_source_*, C07_source_*) "
                "and by a differential correspondence check of the extracted model (ExtrOcamlBasic only) against "
                "both quoting backends built from the working tree; extracted theorem predicates applied to the "
                "implementation's outputs.")
 
-TECH = ("Coq proof (Rocq 8.16.1, kernel-checked, no axioms) over a hand-written Gallina model; tie to the source: tables regenerated from /repo each run, Python-ast-to-Gallina re-translation of _path.py, unsplit_result, make_netloc, encode_url, pre_encoded_url, __str__, __eq__, the ordering operators, 27 accessors, 13 modifiers, _make_child, join, human_repr, split_netloc, _encode_host and three pinned library wrappers with equality proofs, "
+TECH = ("Coq proof (Rocq 8.16.1, kernel-checked, no axioms) over a hand-written Gallina model; tie to the source: tables regenerated from /repo each run, Python-ast-to-Gallina re-translation of _path.py, unsplit_result, make_netloc, encode_url, pre_encoded_url, __str__, __eq__, the ordering operators, 30 accessors, 13 modifiers, the four query operations, _make_child, joinpath, /, join, human_repr, build_pre_encoded_url, from_parts_uncached, split_netloc, _encode_host, the four functions of _query.py and three pinned library wrappers (77 functions) with equality proofs, "
         "extracted-model differential correspondence against both backends, extracted theorem predicates evaluated on the implementation's outputs")
 
 CHECKS = {
@@ -36,7 +36,8 @@ CHECKS = {
                  'escaped delimiter stays escaped (decode table by complete sweep, C04). PARTIAL: which component each entry point hands '
                  'to which quoter (URL-level composition) is the extracted predicate c02_pred on the implementation (component texts '
                  'exhaustive to length 2/3 over 25 class symbols plus alias code points, builders/modifiers over 60+ texts, untargeted '
-                 'components of an all-escaped base). Known finding F1b.'),
+                 'components of an all-escaped base). SOURCE TIE: yarl/_query.py (query_var, both serialisers, get_str_query) is re-translated from '
+                 'the working tree on every run and proved equal to the model for every value of the exact-type flags (C02_source_query_functions). Known finding F1b.'),
         "design_ref": "DESIGN.md section 7 C02",
     },
     "C03": {
@@ -142,7 +143,9 @@ CHECKS = {
                  "update clause is REFUTED on the faithful model of multidict 6.2.0's MultiDict.update (C12_update_refuted, known finding "
                  'F29) and proved for a single key. PARTIAL: mapping/list-valued/numeric arguments and the update clause outside F29 are '
                  'the extracted list-algebra predicate c12_pred on the implementation (existing queries incl. non-canonically spelled keys '
-                 'x 4 operations x 190+ argument forms). Argument immutability is probed on the implementation.'),
+                 'x 4 operations x 190+ argument forms). Argument immutability is probed on the implementation. SOURCE TIE: with_query, extend_query, '
+                 'update_query, without_query_params (yarl/_url.py) and get_str_query (yarl/_query.py) are re-translated from the working tree on every run '
+                 'and proved equal to the model functions these theorems are about (C12_source_*).'),
         "design_ref": "DESIGN.md section 7 C12",
     },
     "C13": {
